@@ -191,6 +191,6 @@ def backlog_case(draw):
 
 def parts():
     return [
-        Part("histories", check, strategy=case_st(), strategy_thorough=case_st(max_ops=80), budget={"quick": 2400, "thorough": 80000}, fuzz={"thorough": 10000}),
-        Part("backlog", check, strategy=backlog_case(), budget={"quick": 300, "thorough": 12000}, shrink_budget=150),
+        Part("histories", hs.with_epoch(check), strategy=hs.plus_epoch(case_st()), strategy_thorough=hs.plus_epoch(case_st(max_ops=80)), budget={"quick": 2400, "thorough": 80000}, fuzz={"thorough": 10000}),
+        Part("backlog", hs.with_epoch(check), strategy=hs.plus_epoch(backlog_case()), budget={"quick": 300, "thorough": 12000}, shrink_budget=150),
     ]
